@@ -697,6 +697,21 @@ def check_c03(prop, tier, seed, devices):
                 cases.append(Case(prog, tag="set-in-segment"))
                 prog = [instr("nop"), seg(segname), setv("handler", off), seg("code"), instr(mn, *(ops_pre + [E(sym("handler"))])), instr("ret")]
                 cases.append(Case(prog, tag="set-in-segment"))
+    # the target named through a variable assigned from the location counter, which had another value before (names in
+    # every letter case, the use in another case than the assignments): the value in force is the one assigned last
+    for ki, kind in enumerate(BR_KINDS[::5] + [("rjmp", None), ("rcall", None)]):
+        mn, s_ = kind
+        bounds = [-66, -65, -64, -63, -2, -1] if mn.startswith("br") else [-2050, -2049, -2048, -2047, -5, -1]
+        for di, d in enumerate(bounds):
+            for c1 in ("lower", "upper", "mixed"):
+                for c2 in ("lower", "mixed"):
+                    g = -d - 1
+                    ops_pre = [E(s_)] if s_ is not None else []
+                    prog = [setv("mark", sym("pc")), instr("nop"), instr("nop"), setv("mark", sym("pc"))] + filler(rnd, g, "nop" if g > 200 else styles[(ki + di) % len(styles)], 2) + \
+                           [instr(mn, *(ops_pre + [E(sym("mark"))])), instr("ret")]
+                    spells = [Spell(case=c1), Spell(), Spell(), Spell(case=c1)] + [Spell() for _ in range(len(prog) - 6)] + [Spell(case=c2), Spell()]
+                    cases.append(Case(prog, tag="%s d=%s" % ("br" if mn.startswith("br") else "rj", "in" if (-64 <= d <= 63 if mn.startswith("br") else -2048 <= d <= 2047) else "out"),
+                                      spells=spells))
     return run_cases(prop, tier, seed, cases, devices, keyf=default_key, extra=[pipeline_extra(sample=1200, seed=seed)],
                      rule="<prefix, branch/jump, filler, target> forward and backward for 34 branch forms + rjmp/rcall; every boundary "
                           "distance for every form, every distance -70..70 with forms rotated; fillers: nop, jmp, odd .db, .dw, .dd, .dq, 3-byte and non-ASCII .db, "
